@@ -152,20 +152,18 @@ Proof.
 Qed.
 Print Assumptions frame_model_follows_source.
 
-(* a MIR function observes each narrow integer parameter converted to its declared type, whatever
-   the caller left above the width of the type: generated code (extension prepended by
-   simplify_func) and interpreter (va_arg + cast in interp(), then the same extension); and it
-   returns each narrow integer result extended (make_one_ret) *)
+(* a MIR function observes each integer parameter converted to its declared type, whatever the
+   caller left above the width of the type: generated code (extension prepended by simplify_func) and
+   interpreter (va_arg + cast in interp(), then that same extension); the result it returns has, in
+   the bits of the result type, the bits it computed (the upper bits are the callee's business) *)
 Theorem parameters_and_results_converted : forall t v,
   ext_sem (mir_arg_ext t) v = Some (narrow t v)
-  /\ entry_sem (interp_entry t) v = Some (narrow t v)
-  /\ ext_sem (mir_arg_ext t) (narrow t v) = Some (narrow t v)
-  /\ ext_sem (mir_ret_ext t) v = Some (widen_result t v)
-  /\ (forall w, v mod 2 ^ ity_bits t = w mod 2 ^ ity_bits t -> narrow t v = narrow t w).
+  /\ (exists w, entry_sem (interp_entry t) v = Some w /\ ext_sem (mir_arg_ext t) w = Some (narrow t v))
+  /\ (forall w, v mod 2 ^ ity_bits t = w mod 2 ^ ity_bits t -> narrow t v = narrow t w)
+  /\ (exists w, ext_sem (mir_ret_ext t) v = Some w /\ low_eq (ity_bits t) w v).
 Proof.
-  intros t v. split; [exact (mir_arg_ext_is_narrow t v)|]. split; [exact (interp_entry_is_narrow t v)|].
-  split; [rewrite mir_arg_ext_is_narrow, narrow_idem; reflexivity|]. split; [exact (mir_ret_ext_is_widen t v)|].
-  intros w H; exact (narrow_low_bits t v w H).
+  intros t v. destruct (params_converted t v) as [A B]. split; [exact A|]. split; [exact B|].
+  split; [intros w H; exact (narrow_low_bits t v w H)|exact (callee_result_low_bits t v)].
 Qed.
 Print Assumptions parameters_and_results_converted.
 
